@@ -569,3 +569,84 @@ MemListener.extra_attributes = property(_listener_extra)
 
 
 MemDatagramListener.extra_attributes = property(_listener_extra)
+
+
+# --------------------------------------------------------------------------------------------------
+# in-memory duplex pipe (two connected AsyncStreamTransports), used to run REAL ssl objects against each other
+
+
+class PipeTransport(AsyncStreamTransport):
+    def __init__(self, be, loop):
+        self._be = be
+        self.loop = loop
+        self.buf = bytearray()
+        self.peer = None
+        self.eof = False
+        self.closed = False
+        self.waiter = None
+        self.close_calls = 0
+
+    @classmethod
+    def pair(cls, be, loop):
+        a, b = cls(be, loop), cls(be, loop)
+        a.peer, b.peer = b, a
+        return a, b
+
+    def _wake(self):
+        w, self.waiter = self.waiter, None
+        if w is not None and not w.done():
+            w.set_result(None)
+
+    async def _wait(self):
+        while not self.buf and not self.eof:
+            if self.closed:
+                raise OSError(9, "closed")
+            self.waiter = self.loop.create_future()
+            try:
+                await self.waiter
+            finally:
+                self.waiter = None
+
+    async def recv(self, bufsize):
+        await self._wait()
+        out = bytes(self.buf[:bufsize])
+        del self.buf[:bufsize]
+        return out
+
+    async def recv_into(self, buffer):
+        await self._wait()
+        with memoryview(buffer) as view:
+            n = min(len(view), len(self.buf))
+            view[:n] = self.buf[:n]
+            del self.buf[:n]
+            return n
+
+    async def send_all(self, data):
+        data = bytes(data)
+        await self._be.coro_yield()
+        if self.closed:
+            raise OSError(32, "broken pipe")
+        self.peer.buf += data
+        self.peer._wake()
+
+    async def send_eof(self):
+        self.peer.eof = True
+        self.peer._wake()
+
+    async def aclose(self):
+        self.close_calls += 1
+        if not self.closed:
+            self.closed = True
+            self.peer.eof = True
+            self.peer._wake()
+            self._wake()
+
+    def is_closing(self):
+        return self.closed
+
+    def backend(self):
+        return self._be
+
+    @property
+    def extra_attributes(self):
+        return {}
